@@ -6,7 +6,7 @@ cd "$(dirname "$0")/.."
 REPO="${VP_RUN_REPO:-/repo}"
 mkdir -p build
 bad=0
-for d in benign/benign*.diff; do
+for d in benign/${BENIGN_GLOB:-benign*}.diff; do
   git -C $REPO checkout -q -- .
   git -C $REPO apply "$(pwd)/$d" || { echo "$d: DOES NOT APPLY"; continue; }
   for p in C01 C02 C03 C04 C05 C06 C07 C08 C09 C10 C11 C12 C13 C14 C16 C17 C18 C19; do
